@@ -2182,16 +2182,17 @@ impl OutstationSession {
     }
 
     fn classify<'a>(&self, info: FragmentInfo, request: Request<'a>) -> FragmentType<'a> {
+        // a broadcast is never a confirmation of anything this outstation transmitted
+        if let Some(mode) = info.broadcast {
+            return FragmentType::Broadcast(mode);
+        }
+
         if request.header.function == FunctionCode::Confirm {
             return if request.header.control.uns {
                 FragmentType::UnsolicitedConfirm(request.header.control.seq)
             } else {
                 FragmentType::SolicitedConfirm(request.header.control.seq)
             };
-        }
-
-        if let Some(mode) = info.broadcast {
-            return FragmentType::Broadcast(mode);
         }
 
         // we need to calculate a digest to deduplicate
